@@ -305,6 +305,25 @@ func TestC19aSignBytes(t *testing.T) {
 			c.Class("wire-rejected-by-lib.Unmarshal")
 		}
 		sites := wire.Sites(m)
+		if rapid.Bool().Draw(rt, "top-level-first") {
+			// uniformly over the top-level fields first, so that a field with one site is not drowned by big sub-messages
+			var tops []string
+			seen := map[string]bool{}
+			for _, s := range sites {
+				if !seen[s.Top()] {
+					seen[s.Top()] = true
+					tops = append(tops, s.Top())
+				}
+			}
+			top := tops[rapid.IntRange(0, len(tops)-1).Draw(rt, "top")]
+			var cand []wire.Site
+			for _, s := range sites {
+				if s.Top() == top {
+					cand = append(cand, s)
+				}
+			}
+			sites = cand
+		}
 		site := sites[rapid.IntRange(0, len(sites)-1).Draw(rt, "site")]
 		ops := site.Ops()
 		op := ops[rapid.IntRange(0, len(ops)-1).Draw(rt, "op")]
